@@ -151,9 +151,11 @@ func c14Deadline(round int) {
 		case <-peer.done:
 		case <-time.After(2 * time.Second):
 		}
-		got := peer.bytes()
-		if len(got) > len(want) { // what follows the message belongs to the second caller
-			got = got[:len(want)]
+		var got []byte
+		for _, b := range peer.bytes() { // 0xBB bytes belong to the second caller, wherever they were sent
+			if b != 0xBB {
+				got = append(got, b)
+			}
 		}
 		emit("C14 contend %s %s", hexOrDash(want), hexOrDash(got))
 	}
